@@ -5,6 +5,61 @@ from .refmodel import RefGraph, read_stack
 HOST_PREFIXES = ("/simapp/", "/simlib/")
 
 
+_SCOPES = {}
+
+
+def _scope_locals(code):
+    """Names that are local to the function's own scope, from the syntax tree of its source (not from the code object or
+    the symbol table: since python 3.12 the loop variables of inlined comprehensions are fast locals of the enclosing
+    code object too, although outside the comprehension such a name still means the global)."""
+    import ast
+    import linecache
+    key = (code.co_filename, code.co_name, code.co_firstlineno)
+    if key in _SCOPES:
+        return _SCOPES[key]
+    names = None
+    try:
+        tree = ast.parse("".join(linecache.getlines(code.co_filename)))
+        fn = next((n for n in ast.walk(tree) if isinstance(n, (ast.FunctionDef, ast.AsyncFunctionDef, ast.Lambda))
+                   and getattr(n, "name", "<lambda>") == code.co_name and n.lineno == code.co_firstlineno), None)
+        if fn is not None:
+            found = set()
+            a_ = fn.args
+            for arg in a_.posonlyargs + a_.args + a_.kwonlyargs + [x for x in (a_.vararg, a_.kwarg) if x]:
+                found.add(arg.arg)
+            declared_global = set()
+
+            def visit(node, in_comp):
+                for child in ast.iter_child_nodes(node):
+                    if isinstance(child, (ast.FunctionDef, ast.AsyncFunctionDef, ast.ClassDef)):
+                        found.add(child.name)
+                        continue
+                    if isinstance(child, ast.Lambda):
+                        continue
+                    if isinstance(child, (ast.Global, ast.Nonlocal)):
+                        declared_global.update(child.names)
+                    comp = isinstance(child, (ast.ListComp, ast.SetComp, ast.DictComp, ast.GeneratorExp))
+                    if isinstance(child, ast.Name) and isinstance(child.ctx, (ast.Store, ast.Del)) and not in_comp:
+                        found.add(child.id)
+                    if isinstance(child, ast.NamedExpr) and isinstance(child.target, ast.Name):
+                        found.add(child.target.id)      # := binds in the enclosing function, also inside a comprehension
+                    if isinstance(child, (ast.Import, ast.ImportFrom)):
+                        for al in child.names:
+                            found.add((al.asname or al.name).split(".")[0])
+                    if isinstance(child, ast.ExceptHandler) and child.name:
+                        found.add(child.name)
+                    visit(child, in_comp or comp)
+            body = fn.body if isinstance(fn.body, list) else [fn.body]
+            for stmt in body:
+                wrapper = ast.Module(body=[stmt], type_ignores=[]) if isinstance(stmt, ast.stmt) else ast.Expression(body=stmt)
+                visit(wrapper, False)
+            names = tuple(sorted(found - declared_global))
+    except Exception:  # noqa
+        names = None
+    _SCOPES[key] = names if names is not None else tuple(code.co_varnames + code.co_cellvars)
+    return _SCOPES[key]
+
+
 def _safe_text(x):
     try:
         return str(x)
@@ -150,7 +205,7 @@ class Recorder:
                 # a lambda) see the function's locals there; with eval that takes one namespace, locals over globals
                 scope = dict(frame.f_globals)
                 scope.update(f_locals)
-                for nm in frame.f_code.co_varnames + frame.f_code.co_cellvars:
+                for nm in _scope_locals(frame.f_code):
                     if nm not in f_locals:
                         scope.pop(nm, None)     # a local that is not bound yet hides the global of that name
                 val = eval(ex, scope)
